@@ -26,6 +26,8 @@ var vC04Shapes = []vC04Shape{
 	{"'a' + 'b'", "ss"}, {"key + 'a' + 'b'", "ss"}, {"'a' + key", "s"}, {"'a' + 'b' + key", "ss"}, {"key + ('a' + 'b')", "ss"},
 	{"'a' + key + 'b'", "ss"}, {"'a' + value + 'b' + 'c'", "sss"}, {"'a' + upper(key) + 'b'", "ss"}, {"'a' + (key + 'b')", "ss"}, {"'a' + key + value + 'b'", "ss"},
 	{"2 * int(value) * 3", "pp"}, {"1 + int(value) + 2 + 3", "iii"}, {"2 * (int(value) * 3)", "pp"}, {"1 + strlen(key) + 2", "ii"}, {"0.5 + int(value) + 1.5", "ff"},
+	{"float(value) / 2 > 1 + 1", "zpp"}, {"float(value) / 2 <= 4 - 2", "zpp"}, {"int(value) / 2.0 >= 1 * 2", "fpp"}, {"float(value) / 2 < int('2')", "zt"},
+	{"1 + 1 < float(value) / 2", "ppz"}, {"float(value) / 4 = 1 + 1", "zpp"},
 	{"int(lower('7'))", "t"}, {"float(upper('1.5'))", "t"}, {"int(substr('123', 0, 2))", "tkk"}, {"int('1' + '2')", "uu"}, {"int('12')", "t"},
 	{"float('1.5')", "t"}, {"is_int(lower('7'))", "t"}, {"is_float(upper('7'))", "t"}, {"strlen(lower('AB'))", "t"}, {"int(join('', '1', '2'))", "kuu"},
 	{"int(str(7))", "d"}, {"int_list(lower('7'), 2)[0]", "tk"}, {"len(split(lower('a,b'), ','))", "tk"},
